@@ -30,7 +30,7 @@ API_SIZES = {
     "C10": {"quick": (30, 25), "thorough": (400, 80)},
     "C11": {"quick": (30, 10), "thorough": (400, 30)},
     "C12": {"quick": (140, (6, 30)), "thorough": (1500, (6, 60))},
-    "C13": {"quick": (60, (4, 14)), "thorough": (1200, (4, 40))},
+    "C13": {"quick": (100, (4, 14)), "thorough": (1500, (4, 40))},
 }
 for _pid, _sz in API_SIZES.items():
     PROPS[_pid] = dict(module=check_api, sizes=_sz, coq_sample={"quick": 12, "thorough": 100})
